@@ -5,10 +5,17 @@ Positions are assumed within (W + 1/2) box lengths (W = 2 quick / 4 thorough wra
 path through the wrap loops is explored.  PERIODIC / SHEAR: afterwards every coordinate lies inside the box, N is unchanged,
 each coordinate changed by an integer number of box lengths (for SHEAR: plus the documented azimuthal offset per radial
 crossing, with v_y shifted by -/+ 3/2 OMEGA L_x per crossing).  OPEN: exactly the particles outside the box are removed and
-the survivors are untouched.  reb_boundary_get_ghostbox equals its definition for i,j,k in {-1,0,1}."""
+the survivors are untouched.  reb_boundary_get_ghostbox equals its definition for i,j,k in {-1,0,1}.
+Tree part: particles with symbolic positions and masses are inserted into the real tree (one root box; depth bounded by a minimum
+separation), every path of the octant selection is explored; on each: every particle sits in exactly one leaf whose cell contains it,
+inner cells count their particles and carry their total mass and centre of mass, cells are octants of their parents; the tree force with
+opening angle 0 equals the direct pairwise sum, and with a symbolic finite opening angle and softening it equals the Barnes-Hut
+definition (opened cells recurse, accepted cells and leaves act through the same softened kernel); after the particles moved to new
+symbolic positions reb_simulation_update_tree leaves the same invariants (re-insertion)."""
 import sys, os, time, ctypes, itertools
 sys.path.insert(0, os.path.dirname(os.path.dirname(os.path.abspath(__file__))))
 import z3
+from fractions import Fraction
 from llsym import build
 from llsym.harness import *
 from llsym.check import *
@@ -189,10 +196,240 @@ def run_ghost(u):
     rep.add_interp(I)
     return rep
 
+def s32(v):
+    return (v - (1 << 32) if v >= (1 << 31) else v) if isinstance(v, int) else v
+
+def tree_cells(I, sim):
+    """walk the tree in the engine's memory (pointers are concrete): returns list of (cell view, depth, parent index)"""
+    L = build.layout()
+    root_arr = sim.get('tree_root')
+    out = []
+    if not isinstance(root_arr, Ptr) or root_arr == NULL: return out
+    def walk(p, depth, parent):
+        c = SimView(I, p, 'reb_treecell'); idx = len(out); out.append((c, depth, parent, p))
+        octoff = L.off('reb_treecell', 'oct')
+        for o in range(8):
+            q = I.mem.load(Ptr(p.obj, p.off + octoff + 8 * o), PtrT(I8))
+            if isinstance(q, Ptr) and q != NULL: walk(q, depth + 1, idx)
+    r0 = I.mem.load(root_arr, PtrT(I8))
+    if isinstance(r0, Ptr) and r0 != NULL: walk(r0, 0, None)
+    return out
+
+def run_tree(u):
+    """the spatial tree: build by insertion with symbolic positions, gravity data, tree force with opening angle 0, and
+    re-insertion after the particles moved"""
+    rep = Report(); N, sep, move = u['N'], u['sep'], u.get('move', False)
+    label = "tree N=%d separation>=%s%s%s " % (N, sep, ' + move and update' if move else '', ' finite opening angle + softening' if u.get('theta') else '')
+    L = build.layout()
+    prover = Prover(t_inproc_ms=u.get('t_ms', 10000), use_external=False)
+    BOX = 8
+    free_axes = u.get('axes', ('x', 'y'))
+    def run(ctx):
+        dom = Real(); I = new_interp(dom, ctx); I.concrete_env = True; I.loop_bound = 64
+        sim = Sim(I)
+        for i in range(N): sim.add(m=1.0)
+        I.call('@reb_simulation_configure_box', [sim.ptr, Fraction(BOX), 1, 1, 1])
+        sim.set('gravity', L.enumerators['REB_GRAVITY_TREE']); sim.set('opening_angle2', Fraction(0))
+        G = dom.fresh('G'); sim.set('G', G)
+        TH = EPS = None
+        if u.get('theta'):
+            TH = dom.fresh('theta2'); EPS = dom.fresh('softening'); ctx.assume(TH > 0); ctx.assume(EPS >= 0)
+            sim.set('opening_angle2', TH); sim.set('softening', EPS)
+        V = {}
+        for i in range(N):
+            for c in ('x', 'y', 'z'):
+                if c in free_axes:
+                    V[(i, c)] = dom.fresh('%s%d' % (c, i)); ctx.assume(z3.And(V[(i, c)] > -BOX / 2, V[(i, c)] < BOX / 2))
+                else: V[(i, c)] = Fraction(1, 3) + i          # concrete, distinct, off every cell boundary
+                sim.particle(i).set(c, V[(i, c)])
+            V[(i, 'm')] = dom.fresh('m%d' % i); ctx.assume(V[(i, 'm')] > 0); sim.particle(i).set('m', V[(i, 'm')])
+        # bounded depth: along the first free axis any two particles are at least `sep` apart
+        a0 = free_axes[0]
+        for i in range(N):
+            for j in range(i):
+                d = V[(i, a0)] - V[(j, a0)]; ctx.assume(z3.Or(d >= sep, -d >= sep))
+        I.stubs['@reb_get_rootbox_for_particle'] = lambda I_, r, p: 0       # one root box (N_root = 1): the index is 0 for every particle in the box
+        for i in range(N): I.call('@reb_tree_add_particle_to_tree', [sim.ptr, i])
+        I.call('@reb_simulation_update_tree_gravity_data', [sim.ptr])
+        I.call('@reb_calculate_acceleration', [sim.ptr])
+        acc = [[dom.z(sim.particle(i).get(a)) for a in ('ax', 'ay', 'az')] for i in range(N)]
+        cells = tree_cells(I, sim)
+        snap = [dict(pt=s32(c.get('pt')), w=c.get('w'), x=c.get('x'), y=c.get('y'), z=c.get('z'), m=c.get('m'), mx=c.get('mx'), my=c.get('my'), mz=c.get('mz'), depth=d_, parent=par) for c, d_, par, p in cells]
+        moved = None
+        if move:
+            W = {}
+            for i in range(N):
+                for c in free_axes:
+                    W[(i, c)] = dom.fresh('%s%d_new' % (c, i)); ctx.assume(z3.And(W[(i, c)] > -BOX / 2, W[(i, c)] < BOX / 2)); sim.particle(i).set(c, W[(i, c)])
+            for i in range(N):
+                for j in range(i):
+                    d = W[(i, a0)] - W[(j, a0)]; ctx.assume(z3.Or(d >= sep, -d >= sep))
+            I.call('@reb_simulation_update_tree', [sim.ptr])
+            I.call('@reb_simulation_update_tree_gravity_data', [sim.ptr])
+            cells2 = tree_cells(I, sim)
+            moved = (W, [dict(pt=s32(c.get('pt')), w=c.get('w'), x=c.get('x'), y=c.get('y'), z=c.get('z'), m=c.get('m'), mx=c.get('mx'), my=c.get('my'), mz=c.get('mz'), depth=d_, parent=par) for c, d_, par, p in cells2],
+                     [{c: sim.particle(i).get(c) for c in ('x', 'y', 'z', 'm')} for i in range(sim.get('N'))], sim.get('N'))
+        return I, dom, sim, V, G, acc, snap, moved, TH, EPS
+    ex = LinExplorer(run, max_paths=u.get('max_paths', 4000))          # linear-skeleton feasibility (see llsym/check.py)
+    try: ex.explore()
+    except BoundExceeded as e: rep.bound_exceeded.append(label + str(e))
+    rep.queries += ex.nqueries; rep.solver_time += ex.qtime
+    def check_cells(ob, dom, pc, cells, pos, N_now, tag, on_sat):
+        leaves = [c for c in cells if isinstance(c['pt'], int) and c['pt'] >= 0]
+        ob.prove("%severy particle sits in exactly one leaf" % tag, sorted(c['pt'] for c in leaves) == list(range(N_now)), [], on_sat=on_sat, domain='structure', sample=dict(cells=len(cells), leaves=[c['pt'] for c in leaves]))
+        for c in leaves:
+            p = pos[c['pt']]; h = dom.z(c['w']) / 2
+            ob.prove("%sparticle %d lies inside its leaf cell (depth %d)" % (tag, c['pt'], c['depth']), z3.And(*[z3.And(dom.z(p[a]) - dom.z(c[a]) <= h, dom.z(c[a]) - dom.z(p[a]) <= h) for a in ('x', 'y', 'z')]), pc, on_sat=on_sat, domain='REAL (linear)')
+            ob.prove("%sleaf of particle %d carries its mass and position" % (tag, c['pt']), z3.And(dom.z(c['m']) == dom.z(p['m']), dom.z(c['mx']) == dom.z(p['x']), dom.z(c['my']) == dom.z(p['y']), dom.z(c['mz']) == dom.z(p['z'])), pc, on_sat=on_sat, domain='REAL')
+        # inner cells: particle count (-pt), total mass and centre of mass of the particles below
+        # (only the facts about masses are handed to the solver for these: positive masses, non-zero mass denominators)
+        def only_masses(t):
+            st = [t]; seen = set()
+            while st:
+                q = st.pop()
+                if q.get_id() in seen: continue
+                seen.add(q.get_id())
+                if z3.is_const(q) and q.decl().kind() == z3.Z3_OP_UNINTERPRETED and not q.decl().name().startswith('m'): return False
+                st.extend(q.children())
+            return True
+        mass_facts = [dom.z(p_['m']) > 0 for p_ in pos if z3.is_expr(p_['m'])] + [b != 0 for b in dom.divs if z3.is_expr(b) and only_masses(b)]
+        def below(k):
+            out_ = []
+            for j, c in enumerate(cells):
+                q = j
+                while q is not None and q != k: q = cells[q]['parent']
+                if q == k and isinstance(c['pt'], int) and c['pt'] >= 0: out_.append(c['pt'])
+            return out_
+        for k, c in enumerate(cells):
+            if isinstance(c['pt'], int) and c['pt'] >= 0: continue
+            mem = below(k)
+            ob.prove("%sinner cell %d (depth %d) counts its particles (pt == -%d)" % (tag, k, c['depth'], len(mem)), c['pt'] == -len(mem), [], on_sat=on_sat, domain='structure')
+            M_ = sum((dom.z(pos[i]['m']) for i in mem), z3.RealVal(0))
+            ob.prove("%sinner cell %d: total mass" % (tag, k), dom.z(c['m']) == M_, mass_facts, axioms=dom.axioms, on_sat=on_sat, domain='REAL')
+            for a, ma in (('x', 'mx'), ('y', 'my'), ('z', 'mz')):
+                ob.prove("%sinner cell %d: centre of mass %s" % (tag, k, a), dom.z(c[ma]) * M_ == sum((dom.z(pos[i]['m']) * dom.z(pos[i][a]) for i in mem), z3.RealVal(0)), mass_facts, axioms=dom.axioms, on_sat=on_sat, domain='REAL')
+            if c['parent'] is not None:
+                par = cells[c['parent']]
+                ob.prove("%sinner cell %d is an octant of its parent" % (tag, k), z3.And(dom.z(c['w']) * 2 == dom.z(par['w']), *[z3.Or(dom.z(c[a]) - dom.z(par[a]) == dom.z(c['w']) / 2, dom.z(par[a]) - dom.z(c[a]) == dom.z(c['w']) / 2) for a in ('x', 'y', 'z')]), [], domain='REAL')
+    for ctx, (I, dom, sim, V, G, acc, snap, moved, TH, EPS) in ex.results:
+        rep.paths += 1; rep.add_interp(I)
+        ob = Obligations(rep, prover, label + "path%d " % rep.paths)
+        pc = list(ctx.pc)
+        def on_sat(model, V=V, G=G):
+            vals = {"%s%d" % (c, i): float(model_value(model, t)) if z3.is_expr(t) else float(t) for (i, c), t in V.items()}
+            vals['G'] = float(model_value(model, G) or 1.0) or 1.0
+            ok, detail = native_tree(u, vals)
+            return ok, 'C15:tree', detail, dict(kind='tree', unit=u, vals=vals)
+        pos = [dict(x=V[(i, 'x')], y=V[(i, 'y')], z=V[(i, 'z')], m=V[(i, 'm')]) for i in range(N)]
+        check_cells(ob, dom, pc, snap, pos, N, '', on_sat)
+        if TH is None:
+            # tree force with opening angle 0 == direct pairwise sum
+            for i in range(N):
+                for k, a in enumerate(('x', 'y', 'z')):
+                    want = z3.RealVal(0)
+                    for j in range(N):
+                        if j == i: continue
+                        d = [dom.z(V[(i, c)]) - dom.z(V[(j, c)]) for c in ('x', 'y', 'z')]
+                        rr = dom.libm('sqrt', [d[0] * d[0] + d[1] * d[1] + d[2] * d[2]])
+                        want = want - G * dom.z(V[(j, 'm')]) * d[k] * dom.fdiv(Fraction(1), rr * rr * rr)
+                    ob.prove("tree force (opening angle 0) on particle %d, %s == direct pairwise sum" % (i, a), acc[i][k] == want, pc + [b != 0 for b in dom.divs], axioms=dom.axioms, on_sat=on_sat, domain='REAL')
+        else:
+            # Barnes-Hut definition: a cell is opened iff w^2 > theta^2 r^2 (r from the cell's centre of mass); an accepted cell and a leaf
+            # act as a point mass at their centre of mass through the SAME softened kernel -G m d / (r^2 + eps^2)^(3/2)
+            kids = {k: [j for j, c in enumerate(snap) if c['parent'] == k] for k in range(len(snap))}
+            def mono(c, i, k):
+                d = [dom.z(V[(i, a_)]) - dom.z(c[ma]) for a_, ma in (('x', 'mx'), ('y', 'my'), ('z', 'mz'))]
+                r2 = d[0] * d[0] + d[1] * d[1] + d[2] * d[2]
+                rr = dom.libm('sqrt', [r2 + dom.z(EPS) * dom.z(EPS)])
+                return r2, -G * dom.fdiv(Fraction(1), rr * rr * rr) * dom.z(c['m']) * d[k]
+            def Fref(ci, i, k):
+                c = snap[ci]; r2, m_ = mono(c, i, k)
+                if isinstance(c['pt'], int) and c['pt'] >= 0: return z3.RealVal(0) if c['pt'] == i else m_
+                return z3.If(dom.z(c['w']) * dom.z(c['w']) > TH * r2, sum((Fref(j, i, k) for j in kids[ci]), z3.RealVal(0)), m_)
+            for i in range(N):
+                for k, a in enumerate(('x', 'y', 'z')):
+                    ob.prove("tree force (finite opening angle, softened) on particle %d, %s == Barnes-Hut sum over opened / accepted cells" % (i, a), acc[i][k] == Fref(0, i, k), pc + [b != 0 for b in dom.divs], axioms=dom.axioms, on_sat=on_sat, domain='REAL')
+        if moved is not None:
+            W, snap2, pos2, N2 = moved
+            ob.prove("moving particles inside the box loses none", N2 == N, [], on_sat=on_sat, domain='structure')
+            if N2 == N:
+                # particles may have been re-ordered by the re-insertion: the multiset of (position, mass) must be unchanged
+                want_pos = [dict(x=W.get((i, 'x'), V[(i, 'x')]), y=W.get((i, 'y'), V[(i, 'y')]), z=W.get((i, 'z'), V[(i, 'z')]), m=V[(i, 'm')]) for i in range(N)]
+                same = lambda p, q: z3.And(*[dom.z(p[c]) == dom.z(q[c]) for c in ('x', 'y', 'z', 'm')])
+                for i in range(N):
+                    ob.prove("after update_tree particle slot %d still holds one of the particles" % i, z3.Or(*[same(pos2[i], w_) for w_ in want_pos]), pc, on_sat=on_sat, domain='REAL')
+                check_cells(ob, dom, pc, snap2, pos2, N2, 'after move + update_tree: ', on_sat)
+        _lin = Lineariser(); ob.witness("path (linear skeleton of the path condition)", [_lin(c_) for c_ in pc])
+    bad, detail = native_tree(u, None); rep.replays += 1
+    if bad: rep.violations.append(dict(key='C15:tree', what=detail, replay=dict(kind='tree', unit=u, vals=None), obligation=label + 'native twin'))
+    return rep
+
+def native_tree(u, vals):
+    """native: tree force with opening angle 0 against the direct BASIC force on the same particles, before and after moving them"""
+    import random, math
+    N_ = nat(); L = N_.L; N = u['N']; rnd = random.Random(5)
+    worst = 0.0; bad = []
+    if u.get('theta'):
+        # a tight pair seen from afar with theta^2 = 1: the pair's depth-1 cell (w = 4) is accepted for the distant particle and
+        # acts as one softened point mass; everything else is opened down to the leaves
+        eps = 0.7; G = 1.0
+        P3 = [dict(x=-3.0, y=0.3, z=0.33, m=1.0), dict(x=-2.6, y=0.35, z=0.4, m=2.0), dict(x=3.5, y=-0.4, z=-0.2, m=0.5)]
+        ns = N_.create()
+        try:
+            f = N_.lib.reb_simulation_configure_box; f.argtypes = [ctypes.c_void_p, ctypes.c_double, ctypes.c_int, ctypes.c_int, ctypes.c_int]; f.restype = None
+            f(ns.addr, 8.0, 1, 1, 1)
+            ns.set('gravity', L.enumerators['REB_GRAVITY_TREE']); ns.set('opening_angle2', 1.0); ns.set('softening', eps)
+            for p in P3: ns.add(**p)
+            ns.call('reb_simulation_update_tree_gravity_data'); ns.call('reb_calculate_acceleration')
+            got = [[ns.particle(i).get(a) for a in ('ax', 'ay', 'az')] for i in range(3)]
+        finally: ns.free()
+        def kern(src_m, src, at):
+            d = [at[k] - src[k] for k in range(3)]; r2 = sum(c * c for c in d) + eps * eps
+            return [-G * src_m * c / r2 ** 1.5 for c in d]
+        X = [[p['x'], p['y'], p['z']] for p in P3]; M = [p['m'] for p in P3]
+        com = [(M[0] * X[0][k] + M[1] * X[1][k]) / (M[0] + M[1]) for k in range(3)]
+        want = [[a + b for a, b in zip(kern(M[1], X[1], X[0]), kern(M[2], X[2], X[0]))], [a + b for a, b in zip(kern(M[0], X[0], X[1]), kern(M[2], X[2], X[1]))], kern(M[0] + M[1], com, X[2])]
+        err = max(abs(g_ - w_) for gi, wi in zip(got, want) for g_, w_ in zip(gi, wi)) / max(abs(w_) for wi in want for w_ in wi)
+        return err > 1e-12, "native tree force, theta^2=1, softening 0.7, tight pair + distant particle: %s (relative deviation from the Barnes-Hut definition %.2e)" % ("differs" if err > 1e-12 else "agrees", err)
+    trials = [vals] if vals else [None] * 20
+    for tv in trials:
+        pts = []
+        for i in range(N):
+            if tv: pts.append(dict(x=tv['x%d' % i], y=tv['y%d' % i], z=tv['z%d' % i], m=max(tv['m%d' % i], 1e-3)))
+            else: pts.append(dict(x=rnd.uniform(-3.9, 3.9), y=rnd.uniform(-3.9, 3.9), z=rnd.uniform(-3.9, 3.9), m=rnd.uniform(0.5, 2)))
+        res = []
+        for grav in ('TREE', 'BASIC'):
+            ns = N_.create()
+            try:
+                f = N_.lib.reb_simulation_configure_box; f.argtypes = [ctypes.c_void_p, ctypes.c_double, ctypes.c_int, ctypes.c_int, ctypes.c_int]; f.restype = None
+                f(ns.addr, 8.0, 1, 1, 1)
+                ns.set('gravity', L.enumerators['REB_GRAVITY_' + grav]); ns.set('opening_angle2', 0.0)
+                for p in pts: ns.add(**p)
+                out = []
+                for phase in range(2 if u.get('move') else 1):
+                    if phase == 1:
+                        for i in range(ns.get('N')):
+                            pp = ns.particle(i); pp.set('x', -pp.get('x') * 0.9); pp.set('y', pp.get('y') * 0.5 + 1.0)
+                        if grav == 'TREE': ns.call('reb_simulation_update_tree')
+                    if grav == 'TREE': ns.call('reb_simulation_update_tree_gravity_data')
+                    ns.call('reb_calculate_acceleration')
+                    out.append(sorted((round(ns.particle(i).get('m'), 12), ns.particle(i).get('ax'), ns.particle(i).get('ay'), ns.particle(i).get('az')) for i in range(ns.get('N'))))
+                res.append(out)
+            finally:
+                ns.free()
+        for ph in range(len(res[0])):
+            if len(res[0][ph]) != len(res[1][ph]): bad.append(('particle count', len(res[0][ph]), len(res[1][ph]))); continue
+            for a_, b_ in zip(res[0][ph], res[1][ph]):
+                sc = max(abs(v) for v in b_[1:]) + 1e-300
+                e = max(abs(x - y) for x, y in zip(a_[1:], b_[1:])) / sc; worst = max(worst, e)
+                if e > 1e-9: bad.append((pts, a_, b_))
+    return bool(bad), "native tree force (opening angle 0) vs direct summation on %d configuration(s): %s" % (len(trials), ("differs: %r" % (bad[0],)) if bad else "agree (worst relative difference %.2e)" % worst)
+
 def worker(u):
-    return {'wrap': run_wrap, 'open': run_open, 'ghost': run_ghost}[u['what']](u)
+    return {'wrap': run_wrap, 'open': run_open, 'ghost': run_ghost, 'tree': run_tree}[u['what']](u)
 
 def replay(data):
+    if data.get('kind') == 'tree': return native_tree(data['unit'], data['vals'])
     if data.get('kind') == 'open': return native_open(data['unit'], data['vals'])
     return native_wrap(data['unit'], data['vals'])
 
@@ -202,12 +439,14 @@ def main():
     build.module(); build.layout(); build.build_native()
     W = 1 if tier == 'quick' else 3
     us = [dict(what='wrap', kind='PERIODIC', W=W, N=1), dict(what='wrap', kind='SHEAR', W=W, N=1), dict(what='open', N=2), dict(what='ghost')]
+    us += [dict(what='tree', N=2, sep=2, axes=('x', 'y')), dict(what='tree', N=2, sep=2, axes=('x',), move=True), dict(what='tree', N=3, sep=2, axes=('x',)), dict(what='tree', N=2, sep=2, axes=('x',), theta=True)]
+    if tier == 'thorough': us += [dict(what='tree', N=3, sep=2, axes=('x',), theta=True, t_ms=30000), dict(what='tree', N=2, sep=1, axes=('x', 'y'), max_paths=20000), dict(what='tree', N=2, sep=2, axes=('x', 'y'), theta=True, max_paths=20000)]
     if tier == 'thorough': us += [dict(what='wrap', kind='PERIODIC', W=1, N=2), dict(what='open', N=3)]
     rep = run_units(us, worker)
     code = finish(PID, tier, rep, t0,
         bounds=dict(wraps_per_axis=W, particles='1 (wrap), 2..3 (open)', unwinding=W + 4),
         assumptions=['box sizes > 0; positions within (W+1/2) box lengths per axis', 'fmod as its defining relation (integer quotient, remainder with the sign of the dividend)', 'real arithmetic'],
-        outside=['the spatial tree (leaf/cell invariants, mass and centre-of-mass sums, re-insertion across root boxes): not built in this session', 'more wraps than W per axis in one call', 'SHEAR: the azimuthal offset bookkeeping y_new - y_old (fmod terms) beyond staying inside the box', 'rounding'],
+        outside=['the spatial tree beyond N = 3 particles in one root box (several root boxes, re-insertion across root boxes, quadrupole moments, the collision-search use of the tree)', 'more wraps than W per axis in one call', 'SHEAR: the azimuthal offset bookkeeping y_new - y_old (fmod terms) beyond staying inside the box', 'rounding'],
         domain_note='REAL with path forking over the wrap loops')
     sys.exit(code)
 
